@@ -18,6 +18,16 @@ CHECKS = {
          'Trusts the 100-line reference machine R1 (cross-checked by three independent engines on every case); programs '
          'longer than 6 words / 64 ops are outside the bound.',
          'DESIGN.md section 3 C01'),
+ 'C07': ('exploration',
+         'configuration product (storage knobs x engines) over exhaustively enumerated sparse program families vs a reference machine incl. final memory',
+         'Every program of a two-segment family whose far segment sits at page edges, page-cache aliases, the flat-window '
+         'edge, 2^40/2^57 and the top of the address space, the w=64 fill-constant family and a slice of the single-segment '
+         'images, run under every storage configuration (flat, hybrid windows cut at every word around each boundary, forced '
+         'paged, env window, measurement loop, ring lengths 1/2/3/65) and every engine; cause, op count, fault address, IO '
+         'calls, last-ops list and the final content of every touched in-segment word must equal the reference machine.',
+         'Trusts R1; explicit flat windows are capped at 2^24 words; ops straddling bit 2^64 at w=64 are excluded here '
+         '(finding F1, explored by C01).',
+         'DESIGN.md section 3 C07'),
 }
 
 NOT_YET = {
